@@ -490,7 +490,7 @@ func TestC27(t *testing.T) {
 
 	// Scenarios drawn by the rapid generator from seeds derived from VERIF_SEED (the same list in every shard, cases are
 	// dealt round-robin); each scenario is then enumerated completely, which ev.Check (one draw = one evaluation) cannot do.
-	n := total(5, 50)
+	n := total(4, 50)
 	ev.Enumerate(t, r, "random_scenarios_every_step", func(yield func(Case) bool) {
 		g := rapid.Custom(genScenario)
 		seen := map[string]bool{}
